@@ -20,13 +20,16 @@ PERSISTENT = ("MetaChains", "SelfStake", "TotalDelegations", "Mirror", "NonNegat
 _LINE = re.compile(r'^<<"(VIOL|DRIFT)", (\d+), "([^"]+)">>$', re.M)
 
 
-def drive_and_validate(ctx, behs, tag, clauses):
+def drive_and_validate(ctx, behs, tag, clauses, seeds=None):
+    """seeds: world seed per behaviour (accounts / address orders depend on it, so a reproduction must reuse it)."""
+    if seeds is None:
+        seeds = [ctx.seed * 100003 + i for i in range(len(behs))]
     binp = getattr(ctx, "_ds_bin", None)
     if binp is None:
         binp = ctx._ds_bin = vlib.go_test_build("dualstaking")
     bpath = os.path.join(ctx.work, tag + "_behaviours.json")
     tpath = os.path.join(ctx.work, tag + "_trace.ndjson")
-    vlib.write_json(bpath, behs)
+    vlib.write_json(bpath, {"behs": behs, "seeds": seeds})
     vlib.run_test_harness(binp, {"VERIF_IN": bpath, "VERIF_OUT": tpath, "VERIF_SEED": ctx.seed}, timeout=3000)
     rows = vlib.read_ndjson(tpath)
     if sum(1 for r in rows if r["ev"] == "reset") != len(behs):
@@ -48,7 +51,8 @@ def drive_and_validate(ctx, behs, tag, clauses):
             if (bi, name) in seen:
                 continue
             seen.add((bi, name))
-        findings.append({"sig": "%s@%s" % (name, ev["ev"]), "beh": behs[bi][:off - 1], "line": off, "event": ev})
+        findings.append({"sig": "%s@%s" % (name, ev["ev"]), "beh": behs[bi][:off - 1], "line": off, "event": ev,
+                         "wseed": seeds[bi]})
     stats = {"events": len(rows), "ok_ops": {}, "failed_ops": {}, "multi_unstakeP": 0, "drift": drift}
     prev = None
     for r in rows:
@@ -79,11 +83,11 @@ def confirm(ctx, findings, clauses):
         if cur is None or len(f["beh"]) < len(cur["beh"]):
             by_sig[f["sig"]] = f
     for i, (sig, f) in enumerate(sorted(by_sig.items())):
-        again, _ = drive_and_validate(ctx, [f["beh"]], "repro%d" % i, clauses)
+        again, _ = drive_and_validate(ctx, [f["beh"]], "repro%d" % i, clauses, seeds=[f["wseed"]])
         same = [g for g in again if g["sig"] == sig]
         if not same:
             raise vlib.Infra("counter-example not reproduced: %s" % sig)
-        ctx.violation(sig, what(same[0]), {"behaviours": [f["beh"]]})
+        ctx.violation(sig, what(same[0]), {"behaviours": [f["beh"]], "seeds": [f["wseed"]]})
 
 
 def generate(ctx, keep_slash=False):
@@ -133,9 +137,9 @@ def run(ctx):
 def replay(ctx, path):
     with open(path) as f:
         obj = vlib.json.load(f)
-    findings, _ = drive_and_validate(ctx, obj["behaviours"], "replay", CLAUSES)
+    findings, _ = drive_and_validate(ctx, obj["behaviours"], "replay", CLAUSES, seeds=obj.get("seeds"))
     done = set()
     for f in findings:
         if f["sig"] not in done:
             done.add(f["sig"])
-            ctx.violation(f["sig"], what(f), {"behaviours": [f["beh"]]})
+            ctx.violation(f["sig"], what(f), {"behaviours": [f["beh"]], "seeds": [f["wseed"]]})
